@@ -285,11 +285,22 @@ theorem qsim_bindParams {P : Qp} (nenv : Nat) (hn : P.σ.n0 ≤ nenv) : ∀ (l :
     unfold bindParams
     refine SimQ.bind (qsim_valueOf hR a (hc (p, a) List.mem_cons_self)) ?_
     rintro _ v s1 t1 hR1 ⟨rfl, _, hcv⟩
-    refine SimQ.bind (qsim_createOrSet hR1 nenv p v true hn (Or.inl rfl) hcv) ?_
-    rintro _ oerr s2 t2 hR2 ⟨rfl, hco⟩
-    rw [ren_isError]
-    exact SimQ.ite (fun _ => SimQ.pure hR2 ⟨rfl, fun v h => by cases h; exact hco⟩)
-      (fun _ => qsim_bindParams nenv hn rest s2 t2 hR2 (fun pa h => hc pa (List.mem_cons_of_mem _ h)))
+    have hrest : ∀ s1 t1, StRq P s1 t1 → SimQ P (do
+          let oerr ← createOrSet (sh P.σ nenv) p (ren P.σ v) true
+          if oerr.isError = true then pure (some oerr)
+            else bindParams (sh P.σ nenv) (List.map (fun pa => (pa.fst, ren P.σ pa.snd)) rest))
+        (do
+          let oerr ← createOrSet nenv p v true
+          if oerr.isError = true then pure (some oerr) else bindParams nenv rest) s1 t1 (QOptq P) := by
+      intro s1 t1 hR1
+      refine SimQ.bind (qsim_createOrSet hR1 nenv p v true hn (Or.inl rfl) hcv) ?_
+      rintro _ oerr s2 t2 hR2 ⟨rfl, hco⟩
+      rw [ren_isError]
+      exact SimQ.ite (fun _ => SimQ.pure hR2 ⟨rfl, fun v h => by cases h; exact hco⟩)
+        (fun _ => qsim_bindParams nenv hn rest s2 t2 hR2 (fun pa h => hc pa (List.mem_cons_of_mem _ h)))
+    dsimp only
+    refine SimQ.ite (fun _ => ?_) (fun _ => hrest s1 t1 hR1)
+    exact SimQ.bind (qsim_triggerNoCache hR1 nenv) (fun _ _ s2 t2 hR2 _ => hrest s2 t2 hR2)
 
 theorem cleanL_expandLast {P : Qp} {args : List Obj} (h : cleanL P args) : cleanL P (expandLast args) := by
   unfold expandLast
